@@ -335,7 +335,7 @@ def main(run: core.Run) -> None:
         items += [dict(c, lf=3, level='basic') for c in docexp.corpus(docs.L_EDIT, 2, depth=1)]
         # depth-1 states: every successful basic edit of a 1-2 line document as prefix
         depth1 = []
-        for c in docexp.corpus(docs.L_EDIT, 1, depth=1) + docexp.class_cases(1)[::3]:
+        for c in docexp.corpus(docs.L_EDIT, 1, depth=1) + [c for c in docexp.class_cases(1) if 'shard' not in c and c['text'].count('\n') == 1][::4]:
             root = docs.try_parse(c['text'], M.File, True)
             seen = set()
             for op in ops.enum_ops(root, 'basic', {'setnode', 'setval', 'seq', 'map'}):
